@@ -5,7 +5,7 @@ This file also holds the machinery shared by the whole-chain history checks (C09
 M: LavaChain.tla exhaustively on tiny entity sets (LavaChain_mcq/_mc.cfg): SupplyNeverIncreases, NoPanic,
    Backed* and BankSound hold for the abstract design (FixRenew = TRUE).
 G: TLC -simulate on LavaChain.tla (GenNext) emits whole-chain histories in four families (Bias = all | renew |
-   stake | iprpc): ~70 abstract steps each, block-time steps biased to month boundaries (months of block time).
+   stake | iprpc): ~60 abstract steps each, block-time steps biased to month boundaries (months of block time).
 R: harness/t/hist replays them on the real keepers (testutil/common.Tester via chainx: atomic txs, blocks under
    recover()) and logs after every step height, time, supply (+ exact delta), module balances, obligations read
    from public state, tx result class, panic flag.
@@ -61,7 +61,7 @@ def generate(ctx, counts):
 
     def one(fam):
         n = counts.get(fam, 0)
-        sim = vlib.tlc_sim(ctx, "LavaChain", "LavaChain_sim_%s.cfg" % fam, num=n, depth=72, timeout=1800,
+        sim = vlib.tlc_sim(ctx, "LavaChain", "LavaChain_sim_%s.cfg" % fam, num=n, depth=62, timeout=1800,
                            tag="LavaChain_sim_" + fam, seed=ctx.seed + ALL_FAMILIES.index(fam))
         behs = [b for b in sim["behaviours"] if len(b) >= 5][:n]
         if not behs:
@@ -70,9 +70,20 @@ def generate(ctx, counts):
 
     todo = [f for f in ALL_FAMILIES if counts.get(f, 0) > 0]
     fams = {}
-    with concurrent.futures.ThreadPoolExecutor(max_workers=4) as ex:
+    with concurrent.futures.ThreadPoolExecutor(max_workers=5) as ex:
         for fam, behs in ex.map(one, todo):
             fams[fam] = behs
+    return fams
+
+
+def gen_and_design(ctx, counts, which):
+    """design-level exhaustive runs and the generators run side by side (independent TLC processes)"""
+    import concurrent.futures
+    with concurrent.futures.ThreadPoolExecutor(max_workers=2) as ex:
+        fd = ex.submit(design_level, ctx, which)
+        fg = ex.submit(generate, ctx, counts)
+        fams = fg.result()
+        fd.result()
     return fams
 
 
@@ -177,7 +188,7 @@ def validate(ctx, cfg, tpath, tag):
     return {"kind": res["violated"], "line": line, "out": res["outfile"]}
 
 
-def hunt(ctx, cfg, behs, tag, signature_of, what_of, max_findings=12, live=True):
+def hunt(ctx, cfg, behs, tag, signature_of, what_of, max_findings=12, live=True, families=None):
     """Validate all histories; every violating history is re-executed alone in a fresh driver process and
     re-validated; reproduced ones are reported (ctx.violation), then removed and the rest is validated again,
     so that a known finding never hides a different one.  Returns rows of the first full run."""
@@ -206,9 +217,10 @@ def hunt(ctx, cfg, behs, tag, signature_of, what_of, max_findings=12, live=True)
                 remaining[bi], bad["kind"], bad["line"]))
         ev = rrows[again["line"] - 1]
         prev = rrows[again["line"] - 2] if again["line"] >= 2 else ev
-        sig = signature_of(again["kind"], prev, ev)
+        fam = families[remaining[bi]] if families else tag
+        sig = signature_of(again["kind"], prev, ev, fam) if families else signature_of(again["kind"], prev, ev)
         ctx.violation(sig, what_of(again["kind"], prev, ev, again["line"] - 1),
-                      {"behaviours": [beh[:again["line"] - 1]], "family": tag})
+                      {"behaviours": [beh[:again["line"] - 1]], "family": fam})
         found += 1
         if found >= max_findings:
             ctx.notes.append("stopped after %d reproduced findings" % found)
@@ -236,7 +248,7 @@ def common_cov(ctx, behs):
     ctx.cov["evaluations"] = len(behs)
     ctx.cov["distinct_nontrivial"] = len({vlib.json.dumps(b, sort_keys=True) for b in behs
                                           if sum(1 for s in b if s["a"] == "NextBlock") >= 3 and len(b) >= 20})
-    ctx.cov["rule"] = ("histories = TLC -simulate runs of LavaChain.tla GenNext (<= 70 abstract steps over 30 action kinds, "
+    ctx.cov["rule"] = ("histories = TLC -simulate runs of LavaChain.tla GenNext (<= 60 abstract steps over 30 action kinds, "
                        "families all/renew/stake/iprpc); non-trivial = at least 20 steps and 3 block-time steps; "
                        "distinct by full step list")
     ctx.sample(behs[0][:12])
@@ -244,7 +256,7 @@ def common_cov(ctx, behs):
         "testutil keepers (mock bank, in-memory IAVL) behave like the production chain for the modules involved",
         "transactions are atomic (chainx.Tx: cached context + bank snapshot), blocks = EndBlock + BeginBlock of all test keepers",
         "entities: 2 consumers, 3 providers, 2 validators, 2 delegators, 2 specs, 2 plans; epochBlocks 3-6, epochsToSave 3-6",
-        "histories are the ones LavaChain.tla's enabling conditions generate (bounded by MaxOps = 70)",
+        "histories are the ones LavaChain.tla's enabling conditions generate (bounded by MaxOps = 60)",
     ]
 
 
@@ -261,8 +273,7 @@ def _what(kind, prev, ev, step):
 
 
 def run(ctx):
-    design_level(ctx, which=ctx.pick(("", "_stake"), ("", "_sub", "_stake", "_iprpc")))
-    fams = generate(ctx, plan(ctx, "C09"))
+    fams = gen_and_design(ctx, plan(ctx, "C09"), ctx.pick(("", "_stake"), ("", "_sub", "_stake", "_iprpc")))
     behs = flatten(fams)
     common_cov(ctx, behs)
     rows = hunt(ctx, "Trace_LavaChain_C09.cfg", behs, "hist", _sig, _what)
